@@ -4,7 +4,8 @@ Part "ops": Hypothesis lists of operations: create House / Tasker / Framer / Log
 Log with explicit names (including names that match the automatic pattern: Tasker2,
 Framer1, Frame1, Log2, House2) or automatic names, clear all registries (House.Clear +
 ClearRegistries, as Builder.build does), House.assignRegistries, Framer.assignFrameRegistry
-and Framer.clone (which switches to the framer's house and to the clone's frame registry).
+and Framer.clone (which switches to the framer's house and to the clone's frame registry), Framer.prune
+(which frees the name of a razed clone in the current namespace, if it is that framer's entry).
 Instances are created with the store of an arbitrary house, i.e. also while *another*
 house's namespace is current.
 
@@ -34,7 +35,7 @@ LEVEL = "exploration"
 RULE = ("(a) Hypothesis-generated operation histories (up to 30 steps quick / 50 thorough) of House/Tasker/Framer/"
         "Logger/Frame/Log creation with explicit names (x, y, z and names matching the automatic pattern such as "
         "Tasker2, Framer1, Frame1, Log2, House2) or automatic names, clear-all, House.assignRegistries, "
-        "Framer.assignFrameRegistry, Framer.clone; every registry compared with a namespace model after every step. "
+        "Framer.assignFrameRegistry, Framer.clone, Framer.prune; every registry compared with a namespace model after every step. "
         "(b) generated FloScript programs (2-6 framers, 1-5 frames each, named aux clones, loggers with logs, "
         "one or two houses repeating the same names, optional duplicated house/framer/frame/logger/log/clone names) "
         "built with the real Builder and the house registries "
@@ -89,6 +90,7 @@ def op_strategy():
         named("frame", "frame"), named("frame", "frame"), named("frame", "frame"),
         named("log", "log"), named("log", "log"),
         named("clone", "tasker"),
+        st.builds(lambda f: {"op": "prune", "f": f}, idx),
         st.builds(lambda h: {"op": "assign", "h": h}, idx), st.builds(lambda h: {"op": "assign", "h": h}, idx),
         st.builds(lambda f: {"op": "fassign", "f": f}, idx), st.builds(lambda f: {"op": "fassign", "f": f}, idx),
         st.just({"op": "clear"}),
@@ -303,6 +305,27 @@ def run_history(ops):
                 fr = framers[op["f"] % len(framers)][0] if framers else None
                 inst = create(kind, cur["frame"], lambda: framing.Frame(name=op["name"], store=store, framer=fr),
                               op["name"], what, excepting.ParameterError)
+        elif kind == "prune":
+            # Framer.prune() (what `raze` does to a clone) frees the framer's name: it may remove the entry of the
+            # CURRENT tasker/framer namespace only when that entry is this very framer - never a same-named framer of
+            # another house whose namespace happens to be current
+            if not framers:
+                labels.add("prune:noframer")
+                continue
+            k = op["f"] % len(framers)
+            inst, fns = framers.pop(k)
+            ns = cur["tasker"]
+            own = ns.names.get(inst.name) is inst
+            labels.add("prune:own-namespace-current" if own else "prune:other-namespace-current")
+            if not own and inst.name in ns.names:
+                labels.add("prune:same-name-in-current-namespace")
+                nontrivial = True
+            try:
+                inst.prune()
+            except Exception as ex:   # noqa: BLE001
+                fails.append(("prune-raises:%s" % type(ex).__name__, "%s: prune of framer %r raised %r" % (what, inst.name, ex)))
+            if own:
+                del ns.names[inst.name]
         elif kind == "clone":
             cands = [(f, ns) for f, ns in framers if getattr(f.store, "house", None) is not None]
             if not cands:
